@@ -1,7 +1,7 @@
 (* C08 — run()/stop(): started once, everything queued is drained, stopped once, exit code propagates.
    Only statements here; the model is Model/KLoop.v, the proofs are in Proofs/KLoopP.v.
 
-   All theorems are about [run P d fuel s0 = Some (s1, out)]: run() entered in state s0 returns in state s1
+   All theorems are about [run false P d fuel s0 = Some (s1, out)]: run() entered in state s0 returns in state s1
    and hands [out] to its caller (Some c: raises SystemExit(c); None: returns normally).  They hold
      for every program P       (evk -> list body: plain and generator handlers of started / stopped /
                                 exception / user events that fire events, call stop(code) themselves or from a
@@ -10,6 +10,13 @@
                                 schedule [sched s0], ANY script of second-thread actions [ext s0], any
                                 earlier trace: so they hold for the n-th run of a manager as for the first),
      for every fuel and nesting depth on which run returns (None = the loop did not finish within fuel).
+   The first argument [false] of run selects the statement order of Manager.stop() as it is in the code
+   (`_running = False; _exit_code = code; fire(stopped)`); [true] is the order with the code recorded after the
+   fire, kept only to be refuted (C08_exit_code_legacy_order_refuted).
+   Second-thread stops in [ext s0] come in two schedules: joined (the stopping thread finishes stop() before the
+   woken loop moves) and late (it is pre-empted right after fire(stopped) woke the loop and finishes only after
+   run() has returned); every position in between is equivalent to one of the two, because the loop reads
+   _exit_code / the stopping thread reads _executing_thread exactly once.
    [delta] is the part of the trace produced by this run(); firedK / dispK / reqs are its projections on
    queued events, dispatched events and stop requests (chronological). *)
 From Coq Require Import List ZArith Bool.
@@ -17,20 +24,20 @@ From Circ Require Import Model.KLoop Proofs.KLoopP.
 Import ListNotations.
 
 (* `started` is dispatched exactly once per run() *)
-Theorem C08_started_once : forall P d fuel s0 s1 out, idle s0 -> run P d fuel s0 = Some (s1, out) ->
+Theorem C08_started_once : forall P d fuel s0 s1 out, idle s0 -> run false P d fuel s0 = Some (s1, out) ->
   exists delta, trace s1 = trace s0 ++ delta /\ cnt KStarted (dispK delta) = 1.
 Proof. exact started_once. Qed.
 Print Assumptions C08_started_once.
 
 (* `stopped` is dispatched exactly once per run(), wherever and however often stop was requested *)
-Theorem C08_stopped_once : forall P d fuel s0 s1 out, idle s0 -> run P d fuel s0 = Some (s1, out) ->
+Theorem C08_stopped_once : forall P d fuel s0 s1 out, idle s0 -> run false P d fuel s0 = Some (s1, out) ->
   exists delta, trace s1 = trace s0 ++ delta /\ cnt KStopped (dispK delta) = 1.
 Proof. exact stopped_once. Qed.
 Print Assumptions C08_stopped_once.
 
 (* run() returns with an empty queue, and the sequence of events dispatched during the run IS the sequence
    of events queued during the run (started, stopped, generate_events, exception and user events alike) *)
-Theorem C08_drained : forall P d fuel s0 s1 out, idle s0 -> run P d fuel s0 = Some (s1, out) ->
+Theorem C08_drained : forall P d fuel s0 s1 out, idle s0 -> run false P d fuel s0 = Some (s1, out) ->
   fifo s1 = [] /\ heap s1 = [] /\ batch s1 = 0 /\
   exists delta, trace s1 = trace s0 ++ delta /\ dispK delta = firedK delta.
 Proof. exact drained. Qed.
@@ -39,7 +46,7 @@ Print Assumptions C08_drained.
 (* run() does not return unless a stop was requested, and what it hands to its caller is the code of the
    FIRST request of this run (stop(code), SystemExit(code) raised in a handler or a generator step,
    KeyboardInterrupt = None, from the loop's thread or the second thread) *)
-Theorem C08_exit_code : forall P d fuel s0 s1 out, idle s0 -> run P d fuel s0 = Some (s1, out) ->
+Theorem C08_exit_code : forall P d fuel s0 s1 out, idle s0 -> run false P d fuel s0 = Some (s1, out) ->
   exists delta r, trace s1 = trace s0 ++ delta /\ reqs delta = out :: r.
 Proof. exact exit_code. Qed.
 Print Assumptions C08_exit_code.
@@ -50,12 +57,12 @@ Proof. exact idle_stop. Qed.
 Print Assumptions C08_idle_stop.
 
 (* a manager that has stopped is idle again: every theorem above applies to its next run() *)
-Theorem C08_rerun : forall P d fuel s0 s1 out, idle s0 -> run P d fuel s0 = Some (s1, out) -> idle s1.
+Theorem C08_rerun : forall P d fuel s0 s1 out, idle s0 -> run false P d fuel s0 = Some (s1, out) -> idle s1.
 Proof. exact rerun. Qed.
 Print Assumptions C08_rerun.
 
 (* all of it at once (the lemma the others are projections of) *)
-Theorem C08_run_spec : forall P d fuel s0 s1 out, idle s0 -> run P d fuel s0 = Some (s1, out) ->
+Theorem C08_run_spec : forall P d fuel s0 s1 out, idle s0 -> run false P d fuel s0 = Some (s1, out) ->
   exists delta, trace s1 = trace s0 ++ delta /\
     firedK delta = dispK delta /\
     cnt KStarted (firedK delta) = 1 /\ cnt KStopped (firedK delta) = 1 /\
@@ -64,7 +71,20 @@ Theorem C08_run_spec : forall P d fuel s0 s1 out, idle s0 -> run P d fuel s0 = S
 Proof. exact run_spec. Qed.
 Print Assumptions C08_run_spec.
 
+(* recording the exit code AFTER fire(stopped) loses it: stop(c) from a second thread that is pre-empted right
+   after the wake-up; run() returns normally although the first (only) request carried c *)
+Theorem C08_exit_code_legacy_order_refuted : exists P d fuel s0 s1 delta r c,
+  idle s0 /\ run true P d fuel s0 = Some (s1, None) /\
+  trace s1 = trace s0 ++ delta /\ reqs delta = Some c :: r.
+Proof. exact exit_code_legacy_refuted. Qed.
+Print Assumptions C08_exit_code_legacy_order_refuted.
+
 (* ---- non-vacuity: concrete programs on which run returns *)
+(* the schedule of the refutation, with the order of the code: SystemExit(3) reaches the caller *)
+Example C08_ex_late_stop :
+  option_map snd (run false (prog_of []) 3 50 (init [] [XStop true (Some 3%Z)])) = Some (Some 3%Z).
+Proof. exact exit_code_late_example. Qed.
+
 (* the three witnesses of the defects repaired by fixes/C08_1..3 *)
 Definition ex_exit7 : prog := prog_of [(KStarted, [BPlain [] (RExit (Some 7%Z))])].
 Definition ex_stop3 : prog := prog_of [(KStarted, [BPlain [AStop false (Some 3%Z)] RRet])].
@@ -78,20 +98,20 @@ Example C08_ex_idle : idle (init [] []).
 Proof. repeat split. Qed.
 
 Example C08_ex_exit7 :
-  option_map (fun r => (dispK (trace (fst r)), snd r)) (run ex_exit7 3 50 (init [] []))
+  option_map (fun r => (dispK (trace (fst r)), snd r)) (run false ex_exit7 3 50 (init [] []))
   = Some ([KStarted; KGE; KStopped], Some 7%Z).
 Proof. vm_compute. reflexivity. Qed.
 
 Example C08_ex_stop3 :
-  option_map (fun r => (dispK (trace (fst r)), snd r)) (run ex_stop3 3 50 (init [] []))
+  option_map (fun r => (dispK (trace (fst r)), snd r)) (run false ex_stop3 3 50 (init [] []))
   = Some ([KStarted; KGE; KStopped], Some 3%Z).
 Proof. vm_compute. reflexivity. Qed.
 
 (* the generator keeps firing during the fade-out ticks; the last e2 is dispatched by the final drain;
    the second run() continues the leftover generator and still gives every guarantee *)
 Definition two_runs (P : prog) (s : st) : option (st * option Z * st * option Z) :=
-  match run P 3 50 s with
-  | Some (s1, o1) => match run P 3 50 s1 with Some (s2, o2) => Some (s1, o1, s2, o2) | None => None end
+  match run false P 3 50 s with
+  | Some (s1, o1) => match run false P 3 50 s1 with Some (s2, o2) => Some (s1, o1, s2, o2) | None => None end
   | None => None
   end.
 
@@ -112,6 +132,6 @@ Proof. vm_compute. split; reflexivity. Qed.
 (* a stop from the second thread while the loop idles, with an exit code *)
 Example C08_ex_ext_stop :
   option_map (fun r => (dispK (trace (fst r)), reqs (trace (fst r)), snd r))
-             (run (prog_of []) 3 50 (init [] [XFire 4; XStop (Some 5%Z)]))
+             (run false (prog_of []) 3 50 (init [] [XFire 4; XStop false (Some 5%Z)]))
   = Some ([KStarted; KGE; KUser 4; KGE; KStopped], [Some 5%Z], Some 5%Z).
 Proof. vm_compute. reflexivity. Qed.
